@@ -300,3 +300,317 @@ Proof.
   destruct (N.eqb (series_of ev) 0); [injection Em as _ <- _; reflexivity|].
   destruct (remove_instance s ev); injection Em as _ <- _; reflexivity.
 Qed.
+
+Lemma mremove_many_series_run s evs :
+  fst (mremove_many_series s evs) = fold_left (fun m o => fst (mstep m o)) (map MRemoveSeries evs) s /\
+  map wr_ok (snd (mremove_many_series s evs)) = concat (map fst (mrun s (map MRemoveSeries evs))).
+Proof.
+  revert s. induction evs as [|ev r IH]; intro s; [split; reflexivity|].
+  unfold mremove_many_series in *. cbn [mfold map fold_left mrun].
+  unfold mremove_series at 1 3. cbv zeta. specialize (IH (fst (mstep s (MRemoveSeries ev)))).
+  destruct (mfold mremove_series (fst (mstep s (MRemoveSeries ev))) r) as [s2 w2]. cbn [fst snd] in *.
+  destruct IH as [IH1 IH2]. split; [exact IH1|].
+  destruct (mstep s (MRemoveSeries ev)) as [s1 [fl sl]] eqn:Em. cbn [fst snd map concat app] in *.
+  rewrite IH2. f_equal.
+  unfold mstep in Em. unfold flag_of. cbn [fst snd].
+  destruct (N.eqb (series_of ev) 0).
+  - destruct (remove_static s ev) as [s1' ok1]. injection Em as _ <- _. reflexivity.
+  - destruct (find_pat (series_of ev) (m_pats s)); injection Em as _ <- _; reflexivity.
+Qed.
+
+(* ------------------------------------------------------------------------------------------ *)
+(* MutableTimeline: the default batches over any backend, and the dispatch on the kind of argument *)
+Lemma iter_for_mfold_gen {ST A : Type} (f : ST -> A -> ST * list wres)
+      (body : list wres * ST -> A -> step (list wres * ST) (ST * list wres)) post :
+  (forall acc st0 x, body (acc, st0) x = let '(st1, w) := f st0 x in SCont (acc ++ w, st1)) ->
+  (forall acc st0, post (acc, st0) = (st0, acc)) ->
+  forall xs st0 acc,
+    iter_for body post (acc, st0) xs = (fst (mfold f st0 xs), acc ++ snd (mfold f st0 xs)).
+Proof.
+  intros Hb Hp. induction xs as [|x r IH]; intros st0 acc; cbn [iter_for mfold].
+  - rewrite Hp, app_nil_r. reflexivity.
+  - rewrite Hb. destruct (f st0 x) as [s1 w1]. rewrite IH.
+    destruct (mfold f s1 r) as [s2 w2]. cbn [fst snd]. rewrite app_assoc. reflexivity.
+Qed.
+
+Theorem g_mt_remove_many_eq {ST : Type} (f : ST -> ivl -> ST * list wres) st0 evs :
+  g_mt_remove_many f st0 evs = mfold f st0 evs.
+Proof.
+  unfold g_mt_remove_many. cbv zeta.
+  match goal with |- iter_for ?body ?post _ _ = _ => rewrite (iter_for_mfold_gen f body post) end;
+    [destruct (mfold f st0 evs); reflexivity | reflexivity | reflexivity].
+Qed.
+Print Assumptions g_mt_remove_many_eq.
+
+Theorem g_mt_remove_many_series_eq {ST : Type} (f : ST -> ivl -> ST * list wres) st0 evs :
+  g_mt_remove_many_series f st0 evs = mfold f st0 evs.
+Proof.
+  unfold g_mt_remove_many_series. cbv zeta.
+  match goal with |- iter_for ?body ?post _ _ = _ => rewrite (iter_for_mfold_gen f body post) end;
+    [destruct (mfold f st0 evs); reflexivity | reflexivity | reflexivity].
+Qed.
+Print Assumptions g_mt_remove_many_series_eq.
+
+Theorem g_mt_add_many_eq {ST K V : Type} (eqb : K -> K -> bool) vars_of
+        (add_interval : ST -> ivl -> list (K * option V) -> ST * list wres) st0 evs kw :
+  g_mt_add_many eqb vars_of add_interval st0 evs kw = madd_many eqb vars_of add_interval st0 evs kw.
+Proof.
+  unfold g_mt_add_many, madd_many. cbv zeta.
+  match goal with |- iter_for ?body ?post _ _ = mfold ?f _ _ => rewrite (iter_for_mfold_gen f body post) end;
+    [destruct (mfold _ st0 evs); reflexivity | reflexivity | reflexivity].
+Qed.
+Print Assumptions g_mt_add_many_eq.
+
+Theorem g_mt_add_eq {ST PAT K V : Type} (eqb : K -> K -> bool) vars_of
+        (addi : ST -> ivl -> list (K * option V) -> ST * list wres)
+        (addr : ST -> PAT -> list (K * option V) -> ST * list wres)
+        (addm : ST -> list ivl -> list (K * option V) -> ST * list wres) st0 item kw :
+  g_mt_add eqb vars_of addi addr addm st0 item kw = madd_dispatch eqb vars_of addi addr addm st0 item kw.
+Proof.
+  unfold g_mt_add, madd_dispatch. destruct item as [i|p| |l]; try reflexivity.
+  - destruct (addi st0 i _); reflexivity.
+  - destruct (addr st0 p kw); reflexivity.
+  - destruct (addm st0 l kw); reflexivity.
+Qed.
+Print Assumptions g_mt_add_eq.
+
+(* remove / remove_series of a MemoryTimeline: the dispatch of the base class over the translated methods of
+   MemoryTimeline is the model's operation on an interval, or its run over a collection *)
+Definition mem_state := (list ivl * list (N * pat))%type.
+Definition view2 (s : mstate) : mem_state := (m_static s, ents (m_pats s)).
+Definition uncurry3 (g : list ivl -> list (N * pat) -> ivl -> list ivl * list (N * pat) * list wres)
+  : mem_state -> ivl -> mem_state * list wres :=
+  fun v ev => let '(a, b, w) := g (fst v) (snd v) ev in ((a, b), w).
+Definition uncurry3l (g : list ivl -> list (N * pat) -> list ivl -> list ivl * list (N * pat) * list wres)
+  : mem_state -> list ivl -> mem_state * list wres :=
+  fun v evs => let '(a, b, w) := g (fst v) (snd v) evs in ((a, b), w).
+
+Theorem g_mt_remove_mem_eq s x :
+  g_mt_remove (uncurry3 G_REMOVE_INTERVAL)
+              (uncurry3l (g_mem_remove_many m_rid m_truthy N.eqb m_pfetch m_exdates m_exs_add m_set_exdates))
+              (view2 s) x =
+  let r := mremove_any s x in (view2 (fst r), snd r).
+Proof.
+  unfold g_mt_remove, uncurry3, uncurry3l, view2, mremove_any. cbn [fst snd].
+  destruct x as [i|l].
+  - rewrite g_mem_remove_interval_eq. reflexivity.
+  - rewrite g_mem_remove_many_eq. reflexivity.
+Qed.
+Print Assumptions g_mt_remove_mem_eq.
+
+Theorem g_mt_remove_series_mem_eq s x :
+  g_mt_remove_series (uncurry3 G_REMOVE_SERIES)
+              (uncurry3l (g_mem_remove_many_series m_rid m_truthy N.eqb m_pfetch m_exdates m_exs_add m_set_exdates))
+              (view2 s) x =
+  let r := mremove_series_any s x in (view2 (fst r), snd r).
+Proof.
+  unfold g_mt_remove_series, uncurry3, uncurry3l, view2, mremove_series_any. cbn [fst snd].
+  destruct x as [i|l].
+  - rewrite g_mem_remove_series_eq. reflexivity.
+  - rewrite g_mem_remove_many_series_eq. reflexivity.
+Qed.
+Print Assumptions g_mt_remove_series_mem_eq.
+
+(* the override of MemoryTimeline is the default of the base class *)
+Theorem g_mem_remove_many_is_default a b evs :
+  uncurry3l (g_mem_remove_many m_rid m_truthy N.eqb m_pfetch m_exdates m_exs_add m_set_exdates) (a, b) evs =
+  g_mt_remove_many (uncurry3 G_REMOVE_INTERVAL) (a, b) evs.
+Proof.
+  unfold uncurry3l, g_mem_remove_many, g_mt_remove_many. cbv zeta. cbn [fst snd].
+  generalize (@nil wres). revert a b. induction evs as [|ev r IH]; intros a b acc; [reflexivity|].
+  cbn [iter_for]. unfold uncurry3 at 1. cbn [fst snd].
+  destruct (G_REMOVE_INTERVAL a b ev) as [[a' b'] w]. apply IH.
+Qed.
+Print Assumptions g_mem_remove_many_is_default.
+
+(* ------------------------------------------------------------------------------------------ *)
+(* _add_interval *)
+Lemma iter_for_fill {K V R : Type} (eqb : K -> K -> bool)
+      (body : list (K * option V) -> K * option V -> step (list (K * option V)) R) post :
+  (forall m k v, body m (k, v) = SCont (if is_none (dict_get_opt eqb k m) then dict_set eqb k v m else m)) ->
+  forall container d, iter_for body post d container = post (fill_defaults eqb container d).
+Proof.
+  intro Hb. induction container as [|[k v] r IH]; intro d; [reflexivity|].
+  cbn [iter_for]. rewrite Hb. unfold fill_defaults. cbn [fold_left fst snd]. apply IH.
+Qed.
+
+Theorem g_mem_add_interval_eq {K V : Type} (eqb : K -> K -> bool) rf (container : list (K * option V)) static i md :
+  g_mem_add_interval eqb rf container static i md = madd_interval eqb rf container static i md.
+Proof.
+  unfold g_mem_add_interval, madd_interval, stored_event. cbv zeta.
+  match goal with |- iter_for ?body ?post _ _ = _ => rewrite (iter_for_fill eqb body post) end; [reflexivity|].
+  intros m k v. cbv beta iota. destruct (is_none (dict_get_opt eqb k m)); reflexivity.
+Qed.
+Print Assumptions g_mem_add_interval_eq.
+
+(* it is add(Interval) of Model/Mem.v on the event that is stored *)
+Theorem g_mem_add_interval_model {K V : Type} (eqb : K -> K -> bool) rf (container : list (K * option V)) s i md :
+  let ev := stored_event eqb rf container i md in
+  let r := mstep s (MAdd ev) in
+  g_mem_add_interval eqb rf container (m_static s) i md = (m_static (fst r), [mkWR (flag_of r) (Some ev) None]) /\
+  m_pats (fst r) = m_pats s /\ m_seq (fst r) = m_seq s.
+Proof. cbv zeta. rewrite g_mem_add_interval_eq. repeat split. Qed.
+Print Assumptions g_mem_add_interval_model.
+
+(* ---- what the merged metadata says, field by field (field names as numbers: Leibniz equality) ---- *)
+Lemma dget_set_same {V : Type} (d : list (N * option V)) k v : dict_get_opt N.eqb k (dict_set N.eqb k v d) = v.
+Proof.
+  unfold dict_get_opt. induction d as [|[k' v'] r IH]; cbn [dict_set dict_get].
+  - rewrite N.eqb_refl. reflexivity.
+  - destruct (N.eqb k k') eqn:E; cbn [dict_get]; rewrite E; [reflexivity|exact IH].
+Qed.
+Lemma dget_set_other {V : Type} (d : list (N * option V)) k k' v :
+  k <> k' -> dict_get_opt N.eqb k (dict_set N.eqb k' v d) = dict_get_opt N.eqb k d.
+Proof.
+  intro Hne. unfold dict_get_opt. induction d as [|[k2 v2] r IH]; cbn [dict_set dict_get].
+  - replace (N.eqb k k') with false by (symmetry; apply N.eqb_neq; exact Hne). reflexivity.
+  - destruct (N.eqb k' k2) eqn:E; cbn [dict_get].
+    + apply N.eqb_eq in E. subst k2. replace (N.eqb k k') with false by (symmetry; apply N.eqb_neq; exact Hne). reflexivity.
+    + destruct (N.eqb k k2); [reflexivity|exact IH].
+Qed.
+Lemma dhas_set {V : Type} (d : list (N * option V)) k k' v :
+  dict_has N.eqb k (dict_set N.eqb k' v d) = N.eqb k k' || dict_has N.eqb k d.
+Proof.
+  unfold dict_has. induction d as [|[k2 v2] r IH]; cbn [dict_set existsb fst].
+  - rewrite orb_false_r. reflexivity.
+  - destruct (N.eqb k' k2) eqn:E; cbn [existsb fst].
+    + apply N.eqb_eq in E. subst k2. destruct (N.eqb k k'); reflexivity.
+    + rewrite IH. destruct (N.eqb k k2), (N.eqb k k'); reflexivity.
+Qed.
+Lemma dget_absent {V : Type} (d : list (N * option V)) k : ~ In k (map fst d) -> dict_get_opt N.eqb k d = None.
+Proof.
+  unfold dict_get_opt. induction d as [|[k2 v2] r IH]; intro H; [reflexivity|]. cbn [dict_get].
+  destruct (N.eqb k k2) eqn:E; [apply N.eqb_eq in E; subst; exfalso; apply H; left; reflexivity|].
+  apply IH. intro Hin. apply H. right. exact Hin.
+Qed.
+
+Lemma dget_nohas {V : Type} (d : list (N * option V)) k : dict_has N.eqb k d = false -> dict_get_opt N.eqb k d = None.
+Proof.
+  unfold dict_has, dict_get_opt. induction d as [|[k2 v2] r IH]; intro H; [reflexivity|]. cbn [existsb fst dict_get] in *.
+  destruct (N.eqb k k2); [discriminate|exact (IH H)].
+Qed.
+Lemma dhas_absent {V : Type} (d : list (N * option V)) k : ~ In k (map fst d) -> dict_has N.eqb k d = false.
+Proof.
+  unfold dict_has. induction d as [|[k2 v2] r IH]; intro H; [reflexivity|]. cbn [existsb fst].
+  destruct (N.eqb k k2) eqn:E; [apply N.eqb_eq in E; subst; exfalso; apply H; left; reflexivity|].
+  apply IH. intro Hin. apply H. right. exact Hin.
+Qed.
+
+Lemma dget_cons {V : Type} (r : list (N * option V)) k k0 v0 :
+  dict_get_opt N.eqb k ((k0, v0) :: r) = if N.eqb k k0 then v0 else dict_get_opt N.eqb k r.
+Proof. reflexivity. Qed.
+
+(* {**a, **b}: the value of b where b has the key, otherwise the value of a *)
+Lemma dget_update {V : Type} (b a : list (N * option V)) k :
+  NoDup (map fst b) ->
+  dict_get_opt N.eqb k (dict_update N.eqb a b) =
+  if dict_has N.eqb k b then dict_get_opt N.eqb k b else dict_get_opt N.eqb k a.
+Proof.
+  unfold dict_update. revert a. induction b as [|[k2 v2] r IH]; intros a Hnd; [reflexivity|].
+  cbn [map fst] in Hnd. inversion Hnd as [|? ? Hk2 Hr]; subst.
+  cbn [fold_left fst snd]. rewrite (IH _ Hr). rewrite (dget_cons r k k2 v2).
+  change (dict_has N.eqb k ((k2, v2) :: r)) with (N.eqb k k2 || dict_has N.eqb k r).
+  destruct (N.eqb k k2) eqn:E.
+  - apply N.eqb_eq in E. subst k2. rewrite (dhas_absent r k Hk2). cbn [orb]. apply dget_set_same.
+  - cbn [orb]. destruct (dict_has N.eqb k r); [reflexivity|].
+    apply dget_set_other. intro H. subst. rewrite N.eqb_refl in E. discriminate.
+Qed.
+
+(* container defaults: the value the dict already has unless that is missing or None *)
+Lemma fill_defaults_get {V : Type} (container d : list (N * option V)) k :
+  NoDup (map fst container) ->
+  dict_get_opt N.eqb k (fill_defaults N.eqb container d) =
+  match dict_get_opt N.eqb k d with Some v => Some v | None => dict_get_opt N.eqb k container end.
+Proof.
+  unfold fill_defaults. revert d. induction container as [|[k0 v0] r IH]; intros d Hnd.
+  - cbn [fold_left]. destruct (dict_get_opt N.eqb k d); reflexivity.
+  - cbn [map fst] in Hnd. inversion Hnd as [|? ? Hk0 Hr]; subst. cbn [fold_left fst snd]. rewrite (IH _ Hr).
+    rewrite (dget_cons r k k0 v0).
+    destruct (N.eqb k k0) eqn:E.
+    + apply N.eqb_eq in E. subst k0.
+      destruct (dict_get_opt N.eqb k d) as [v|] eqn:Ed; cbn [is_none].
+      * rewrite Ed. reflexivity.
+      * rewrite dget_set_same, (dget_absent r k Hk0). destruct v0; reflexivity.
+    + assert (Hne : k <> k0) by (intro H; subst; rewrite N.eqb_refl in E; discriminate).
+      destruct (is_none (dict_get_opt N.eqb k0 d)); [rewrite (dget_set_other d k k0 v0 Hne)|]; reflexivity.
+Qed.
+
+(* the field k of the event that add(item, **kw) stores on a timeline with container metadata is the
+   meta_merge of Model/Mem.v (the model the C12 checks compare with the implementation) *)
+Theorem add_metadata_is_meta_merge (item_fields kw container : list (N * option N)) k :
+  NoDup (map fst kw) -> NoDup (map fst container) ->
+  dict_get_opt N.eqb k (fill_defaults N.eqb container (dict_update N.eqb item_fields kw)) =
+  meta_merge (dict_get_opt N.eqb k item_fields)
+             (if dict_has N.eqb k kw then Some (dict_get_opt N.eqb k kw) else None)
+             (if dict_has N.eqb k container then Some (dict_get_opt N.eqb k container) else None).
+Proof.
+  intros Hkw Hc. rewrite (fill_defaults_get _ _ _ Hc), (dget_update _ _ _ Hkw). unfold meta_merge.
+  destruct (dict_has N.eqb k kw);
+    [destruct (dict_get_opt N.eqb k kw)|destruct (dict_get_opt N.eqb k item_fields)]; try reflexivity;
+    (destruct (dict_has N.eqb k container) eqn:Eh; [reflexivity|apply dget_nohas; exact Eh]).
+Qed.
+Print Assumptions add_metadata_is_meta_merge.
+
+Example add_metadata_nonvacuous :
+  NoDup (map fst [(1%N, Some 7%N); (2%N, @None N)]) /\ NoDup (map fst [(2%N, Some 9%N)]) /\
+  dict_get_opt N.eqb 2%N (fill_defaults N.eqb [(2%N, Some 9%N)] (dict_update N.eqb [(2%N, Some 5%N)] [(1%N, Some 7%N); (2%N, None)]))
+  = Some 9%N.
+Proof. repeat split; repeat constructor; cbn; intuition discriminate. Qed.
+
+(* ------------------------------------------------------------------------------------------ *)
+(* _add_recurring *)
+Lemma N_plus_Z_succ n : N_plus_Z n 1 = N.succ n.
+Proof. unfold N_plus_Z. lia. Qed.
+
+Theorem g_mem_add_recurring_eq {ID PAT K V START TZ : Type} (eqb : K -> K -> bool) (make_id : PAT -> N -> ID)
+        pmeta chas cann krid (vid : ID -> V) (astart : PAT -> START) (atz : PAT -> TZ) mk
+        (container : list (K * option V)) pats sq p kw :
+  g_mem_add_recurring eqb make_id pmeta chas cann krid vid astart atz mk container pats sq p kw =
+  madd_recurring eqb make_id pmeta chas cann krid vid astart atz mk container pats sq p kw.
+Proof.
+  unfold g_mem_add_recurring, madd_recurring, recurring_metadata. cbv zeta. rewrite N_plus_Z_succ.
+  match goal with |- iter_for ?body ?post _ _ = _ => rewrite (iter_for_fill eqb body post) end.
+  - destruct (chas p); cbn [andb existsb]; [destruct (existsb (eqb krid) (cann p))|]; reflexivity.
+  - intros m k v. cbv beta iota. destruct (is_none (dict_get_opt eqb k m)); reflexivity.
+Qed.
+Print Assumptions g_mem_add_recurring_eq.
+
+(* at the model's representation it is add(RecurringPattern) of Model/Mem.v, provided the event class of the
+   pattern has a recurring_event_id field (otherwise the occurrences would not name their series) *)
+Theorem g_mem_add_recurring_model krid pmeta chas cann (container kw : list (N * option N)) s period phase dur tag :
+  let p0 := mkP 0 period phase dur [] tag in
+  chas p0 = true -> existsb (N.eqb krid) (cann p0) = true ->
+  let r := mstep s (MAddPat period phase dur tag) in
+  g_mem_add_recurring N.eqb m_make_id pmeta chas cann krid (fun id : N => id) (fun _ => tt) (fun _ => tt)
+                      (m_make_pattern krid) container (ents (m_pats s)) (m_seq s) p0 kw =
+  (ents (m_pats (fst r)), m_seq (fst r), [wr_noev (flag_of r)]) /\ m_static (fst r) = m_static s.
+Proof.
+  intros p0 Hc Ha. cbv zeta. rewrite g_mem_add_recurring_eq. unfold madd_recurring, recurring_metadata. cbv zeta.
+  rewrite Hc, Ha. cbn [andb mstep fst snd m_pats m_seq m_static flag_of hd]. split; [|reflexivity].
+  unfold ents. rewrite map_app. cbn [map]. unfold m_make_pattern. rewrite dget_set_same.
+  unfold m_make_id. reflexivity.
+Qed.
+Print Assumptions g_mem_add_recurring_model.
+
+Example g_mem_add_recurring_model_nonvacuous :
+  (fun _ : pat => true) (mkP 0 86400 0 3600 [] 1) = true /\
+  existsb (N.eqb 5%N) ((fun _ : pat => [4%N; 5%N]) (mkP 0 86400 0 3600 [] 1)) = true.
+Proof. split; reflexivity. Qed.
+
+(* ------------------------------------------------------------------------------------------ *)
+(* the hypotheses of the theorems above are satisfiable *)
+Example g_mem_fetch_nonvacuous :
+  sorted_start (m_static (mkM [mkI (Some 1) (Some 5) Plain; mkI (Some 3) (Some 4) Plain] [] 0)).
+Proof. exact g_mem_fetch_static_nonvacuous. Qed.
+Example g_mem_remove_recurring_instance_nonvacuous : series_of (mkI (Some 0) (Some 10) (Rich 301)) <> 0%N.
+Proof. vm_compute. discriminate. Qed.
+
+(* and the translated code does what the model says on a concrete history: a daily series, one occurrence
+   cancelled through remove(), a second removal of the same occurrence refused *)
+Example g_mem_remove_interval_demo :
+  let s := fst (mstep minit (MAddPat 86400 0 3600 3)) in
+  let ev := mkI (Some 86400) (Some 90000) (Rich 301) in
+  let '(a, b, w) := G_REMOVE_INTERVAL (m_static s) (ents (m_pats s)) ev in
+  map wr_ok w = [true] /\ map (fun e => p_ex (snd e)) b = [[86400]] /\
+  map wr_ok (snd (G_REMOVE_INTERVAL a b ev)) = [false].
+Proof. vm_compute. repeat split. Qed.
